@@ -181,6 +181,10 @@ pub fn plan(prop: &str, tier: &str) -> Option<Plan> {
             }
             // a cascade that outlives three epoch advances (scheduling at the driver's points only)
             b.add("rc/long-cascade", &[20, 37, 53], &[], 2);
+            // a destructor that reads under its own guard while it flushes (finding #13): thread 0
+            // is interrupted at each of its four uses of the Snapshot
+            b.add("rc/destructor-reader", &[0, 37], &[], 4);
+            b.goal("rc/destructor-reader", "destructor-read-under-own-guard");
             // the link's own stamp is the only protection (three preemptions, four threads)
             b.add_sliced("rc/handover-into-reclaimed", if quick { &[0i64][..] } else { all }, &[], 3, 16);
             b.goal("rc/stalled-dropper", "cascade-child-destructed");
